@@ -206,6 +206,7 @@ def cf_queries(ctx, gd, ev, rng, fixed=None):
 
 
 def run_shard(ctx):
+    gg.ALLOW_ODD = True  # node names that are not Python identifiers are node names like any other
     mon_dsep.install()
     install_enumerator()
     rng = ctx.rng
